@@ -89,10 +89,10 @@ def base_texts(rng, tier):
                     texts.append(("repo:" + f, open(os.path.join(d, f), encoding="utf-8").read()))
     texts.sort()
     # valid and invalid abstract files (every validation error class arises), conflicting grammars
-    for _ in range(500 if tier == "quick" else 5000):
+    for _ in range(500 if tier == "quick" else 25000):
         f = validate.random_file(rng)
         texts.append(("validate", validate.render(f, rng)[0]))
-    for _ in range(250 if tier == "quick" else 2500):
+    for _ in range(250 if tier == "quick" else 12000):
         G = pipeline.random_grammar(rng, max_nts=4, max_ts=3, max_rules=8, max_rhs=3)
         pres = grammar.present(G, rng, payload=None)
         texts.append(("grammar", grammar.render(G, pres)))
